@@ -590,3 +590,28 @@ mutant("C13-M20", "C13", "R13g", "eligible count subtracts", M, "Model.update_pa
 mutant("C13-M21", "C13", "R13g", "source popsize starts at one", M, "Parameter.source_popsize", "                n = 0\n", "                n = 1\n")
 mutant("C20-M16", "C20", "R20h", "population size subtracts compartments", M, "Population.popsize", "n += comp[ti]", "n -= comp[ti]")
 twin("C06-T9", "C06", "keep flag condition with the disjuncts swapped", M, "Model._set_exec_order", "if par._is_dynamic or (self.progset and par.name in self.progset.pars):", "if (self.progset and par.name in self.progset.pars) or par._is_dynamic:")
+
+# ---- third sweep (programs.py): survivors turned into mutants
+mutant("C11-M22", "C11", "R11h", "saturation curve adds the saturation level", PR, "Program.get_prop_covered", "(1 + exp(-2 * prop_covered / saturation)) - saturation", "(1 + exp(-2 * prop_covered / saturation)) + saturation")
+mutant("C11-M23", "C11", "R11h", "saturation curve divides by 2*saturation", PR, "Program.get_prop_covered", "prop_covered = 2 * saturation / (1", "prop_covered = 2 / saturation / (1")
+mutant("C11-M24", "C11", "R11h", "saturation applied when there is no saturation data", PR, "Program.get_prop_covered", "if self.saturation.has_data:", "if not self.saturation.has_data:")
+mutant("C11-M25", "C11", "R11i", "spending overwrite selection negated", PR, "ProgramSet.get_alloc", "if instructions is None or prog.name not in instructions.alloc:", "if not (instructions is None or prog.name not in instructions.alloc):")
+mutant("C11-M26", "C11", "R11i", "capacity overwrite looked up in the spending overwrites", PR, "ProgramSet.get_capacities", "if instructions is None or prog.name not in instructions.capacity:", "if instructions is None or prog.name not in instructions.alloc:")
+mutant("C11-M27", "C11", "R11i", "coverage overwrite used only when instructions are missing", PR, "ProgramSet.get_prop_coverage", "if instructions is None or prog.name not in instructions.coverage:", "if instructions is None and prog.name not in instructions.coverage:")
+mutant("C11-M28", "C11", "R11j", "TimeSeries capacity overwrite wrapped instead of copied", PR, "ProgramInstructions.__init__", "                if isinstance(vals, TimeSeries):\n                    self.capacity[prog_name] = sc.dcp(vals)", "                if not isinstance(vals, TimeSeries):\n                    self.capacity[prog_name] = sc.dcp(vals)")
+mutant("C11-M29", "C11", "R11j", "coverage overwrite shares the caller's TimeSeries", PR, "ProgramInstructions.__init__", "self.coverage[prog_name] = sc.dcp(vals)", "self.coverage[prog_name] = vals")
+mutant("C11-M30", "C11", "R11j", "scalar spending overwrite placed at year 0", PR, "ProgramInstructions.__init__", "self.alloc[prog_name] = TimeSeries(t=self.start_year, vals=spending)", "self.alloc[prog_name] = TimeSeries(t=0, vals=spending)")
+twin("C11-T7", "C11", "overwrite selection written positively", PR, "ProgramSet.get_alloc", "            if instructions is None or prog.name not in instructions.alloc:\n                alloc[prog.name] = prog.get_spend(tvec)\n            else:\n                alloc[prog.name] = instructions.alloc[prog.name].interpolate(tvec, method=\"previous\")", "            if instructions is not None and prog.name in instructions.alloc:\n                alloc[prog.name] = instructions.alloc[prog.name].interpolate(tvec, method=\"previous\")\n            else:\n                alloc[prog.name] = prog.get_spend(tvec)")
+twin("C11-T8", "C11", "saturation curve with the terms reordered", PR, "Program.get_prop_covered", "prop_covered = 2 * saturation / (1 + exp(-2 * prop_covered / saturation)) - saturation", "prop_covered = -saturation + saturation * 2 / (exp(-(2 * prop_covered) / saturation) + 1)")
+mutant("C12-M20", "C12", "R12g", "random weights: complement term not complemented", PR, "Covout.get_outcome", "combination_coverage = np.product(self.combinations * cov + (self.combinations ^ 1) * (1 - cov), axis=1)", "combination_coverage = np.product(self.combinations * cov + (self.combinations ^ 1) * (1 + cov), axis=1)")
+mutant("C12-M21", "C12", "R12g", "additive share: inner maximum dropped", PR, "Covout.get_outcome", "additive = np.maximum(cov - np.maximum(cov - (1 - (np.cumsum(cov) - cov)), 0), 0)", "additive = np.maximum(cov - (cov - (1 - (np.cumsum(cov) - cov))), 0)")
+mutant("C12-M22", "C12", "R12g", "additive: net random uses random portion for the complement", PR, "Covout.get_outcome", "net_random = self.combinations * random_portion + (self.combinations ^ 1) * (1 - random_portion)", "net_random = self.combinations * random_portion + (self.combinations ^ 1) * (1 + random_portion)")
+mutant("C12-M23", "C12", "R12g", "additive: diagonal test inverted", PR, "Covout.get_outcome", "                        if i == j:", "                        if i != j:")
+mutant("C12-M24", "C12", "R12g", "additive: switch to mixing when total coverage exceeds 0", PR, "Covout.get_outcome", "if np.sum(cov) > 1:", "if np.sum(cov) > 0:")
+mutant("C12-M25", "C12", "R12g", "nested: first increment taken for every round", PR, "Covout.get_outcome", "                if i == 0:", "                if i != 0:")
+mutant("C12-M26", "C12", "R12g", "nested: programs never dropped", PR, "Covout.get_outcome", "                prog_mask[idx[i]] = False  # Disable this program at the next iteration", "                pass")
+mutant("C12-M27", "C12", "R12g", "additive below 1: coverage subtracted", PR, "Covout.get_outcome", "outcome += np.sum(cov * self._deltas)", "outcome -= np.sum(cov * self._deltas)")
+twin("C12-T6", "C12", "random weights with the complement written 1 - C", PR, "Covout.get_outcome", "(self.combinations ^ 1) * (1 - cov)", "(1 - self.combinations) * (1 - cov)")
+twin("C12-T7", "C12", "additive share with the cumulative sum simplified", PR, "Covout.get_outcome", "additive = np.maximum(cov - np.maximum(cov - (1 - (np.cumsum(cov) - cov)), 0), 0)", "additive = np.maximum(cov - np.maximum(np.cumsum(cov) - 1, 0), 0)")
+mutant("C12-M28", "C12", "R12c", "empty combination contributes one", PR, "Covout.compute_impact_interaction", "            return 0.0", "            return 1.0")
+mutant("C12-M29", "C12", "R12c", "empty-combination test negated", PR, "Covout.compute_impact_interaction", "        if not any(progs):", "        if any(progs):")
